@@ -5,7 +5,7 @@
 //! MIN <= t <= MAX, an `Ok` outside the range, an `Err` inside, a refusal that is not the
 //! out-of-range error, or an altered nanosecond value.
 
-use crate::core::{run_cases, Ctx, Fnv, Local, Report};
+use crate::core::{run_cases, run_enum, Ctx, Fnv, Local, Report};
 use crate::facade::{self, E};
 use crate::model::cal;
 use crate::util::json::Json;
@@ -183,7 +183,7 @@ pub fn run(ctx: &Ctx) -> Report {
 
     // wl 1: the complete 400-year cycle, day by day
     let cycle_start = cal::days_from_civil(2000, 3, 1);
-    run_cases(ctx, &mut rep, 1, ctx.n(146097, 146097), |l, _rng, i| {
+    run_enum(ctx, &mut rep, 1, 146097, |l, _rng, i| {
         let day = cycle_start + i as i64;
         let mut cnt = 0;
         for sod in SODS {
@@ -207,7 +207,7 @@ pub fn run(ctx: &Ctx) -> Report {
         cal::days_from_civil(i32::MAX as i64, 12, 31),
         cal::days_from_civil(2400, 2, 29),
     ];
-    run_cases(ctx, &mut rep, 2, ctx.n(8 * 24, 8 * 24), |l, _rng, i| {
+    run_enum(ctx, &mut rep, 2, 8 * 24, |l, _rng, i| {
         let day = days8[(i / 24) as usize % 8];
         let hour = (i % 24) as i64;
         let mut cnt = 0;
@@ -220,7 +220,7 @@ pub fn run(ctx: &Ctx) -> Report {
 
     // wl 3: edges
     let edges = edge_instants();
-    run_cases(ctx, &mut rep, 3, edges.len() as u64, |l, _rng, i| {
+    run_enum(ctx, &mut rep, 3, edges.len() as u64, |l, _rng, i| {
         let mut cnt = 0;
         let t = edges[i as usize];
         check(l, t, 0, &mut cnt);
